@@ -245,6 +245,9 @@ func (c *Check) Finish(verifDir string) int {
 	for k, v := range c.Extra {
 		cov[k] = v
 	}
+	if c.Assume == nil {
+		c.Assume = []string{}
+	}
 	ev := map[string]interface{}{
 		"property_id": c.Property,
 		"tier":        c.Tier,
